@@ -440,6 +440,9 @@ SX_TABS_REQUIRES(s, n)
 __CPROVER_assigns(g_sx_live)
 __CPROVER_ensures(IMPLIES(SX_RV.node != NULL, SX_NODE_FRESH(SX_RV.node)))
 __CPROVER_ensures(sx_expr_post(s, n, i, SX_RV, false))
+/* no node returned => no block retained (whatever was obtained is linked
+ * into the returned partial tree, never dropped) */
+__CPROVER_ensures(IMPLIES(SX_RV.node == NULL, g_sx_live == __CPROVER_old(g_sx_live)))
 __CPROVER_ensures(IMPLIES(SX_GRAMMAR_OK(s, n), sx_expr_post_exact(s, n, i, SX_RV)))
 ;
 
@@ -450,6 +453,7 @@ __CPROVER_assigns(g_sx_live)
 __CPROVER_ensures(IMPLIES(SX_RV.node != NULL, SX_NODE_FRESH(SX_RV.node)))
 __CPROVER_ensures(sx_expr_post(s, n, i, SX_RV, true))
 __CPROVER_ensures(IMPLIES(i >= n, SX_RV.status == SXS_UNEXPECTED_END && SX_RV.node == NULL))
+__CPROVER_ensures(IMPLIES(SX_RV.node == NULL, g_sx_live == __CPROVER_old(g_sx_live)))
 /* a successfully read non-empty list: fresh pair cell, fresh children */
 __CPROVER_ensures(IMPLIES(SX_IS_PAIR_RESULT(SX_RV),
     __CPROVER_is_fresh(SX_RV.node->data.pair, sizeof(struct sx_pair))
